@@ -20,6 +20,8 @@ package car
 //@   call[util.LdWrite#0] assert section [C01,C15]: ref(arg0) == ref(cw.w) && len(arg1) == 2
 
 //@ func (*CarReader).Next
+//@   ensures an_exhausted_reader_stays_at_the_clean_end [C02,C09]: old(cr.br) == nil ==> err == io.EOF && result0 == nil
+//@   ensures a_section_error_is_returned_as_it_is [C02]: old(cr.br) != nil && rerr != nil ==> err == rerr && result0 == nil
 //@   modifies cr.br, pos(cr.br)
 //@   let c, data, rerr := call[util.ReadNode#0]
 //@   ensures integrity [C02]: err == nil ==> hashok(blockcid(result0), blockdata(result0))
@@ -28,6 +30,7 @@ package car
 //@   ensures progress [C09]: err == nil ==> cr.br == old(cr.br) && pos(cr.br) > old(pos(cr.br)) && pos(cr.br) <= lim(cr.br)
 
 //@ func loadCarFast
+//@   requires a_store [C09]: s != nil
 //@   check clean_end_is_success [C02]: nerr == io.EOF && (len(buf) == 0 || ferr == nil) ==> err == nil && result0 == cr.Header
 //@   loop[0] decreases lim(cr.br) - pos(cr.br)
 //@   let blk, nerr := call[CarReader.Next#0]
@@ -42,6 +45,7 @@ package car
 //@   loop[0] step batch_restarts_only_after_a_flush [C02]: len(buf) == 0 || len(buf) == athead(0, len(buf)) + 1
 
 //@ func loadCarSlow
+//@   requires a_store [C09]: s != nil
 //@   ensures clean_end_is_success [C02]: nerr == io.EOF ==> err == nil && result0 == cr.Header
 //@   loop[0] decreases lim(cr.br) - pos(cr.br)
 //@   let blk, nerr := call[CarReader.Next#0]
@@ -52,6 +56,10 @@ package car
 //@   loop[0] step continues_only_after_a_successful_put [C02]: perr == nil
 
 //@ func NewCarReaderWithOptions
+//@   call[Reader.Reset#0] assert rebinds_the_pooled_reader_to_the_given_stream [C01,C02]: ref(arg1) == ref(r)
+//@   call[ReadHeader#0] assert reads_through_that_reader [C01,C02]: ref(arg0) == ref(br)
+//@   call[fmt.Errorf#1] assert refuses_empty_roots_only_when_asked [C02,C09]: carReader.errorOnEmptyRoots && len(ch.Roots) == 0
+//@   call[fmt.Errorf#0] assert refuses_only_another_version [C02,C09]: herr == nil && ch.Version != 1
 //@   check applies_every_option [C02,C09]: err == nil ==> rangeindex == len(opts)
 //@   let ch, herr := call[ReadHeader#0]
 //@   ensures only_version_1 [C02,C09]: err == nil ==> herr == nil && ch.Version == 1 && result0 != nil
@@ -60,6 +68,11 @@ package car
 //@   call[Pool.Get#0] assume pool_holds_only_bufio_readers: typeis(result, "*bufio.Reader")
 
 //@ func (*selectiveCarTraverser).loader
+//@   ghost at entry: mark(sct) := 0
+//@   ghost after call[Set.Add#0]: mark(sct) := 1
+//@   call[Set.Add#0] assert remembers_the_block_it_is_about_to_emit [C15]: arg1 == c && !hasres
+//@   check an_emitted_block_is_remembered [C15]: err == nil && executed("Set.Has#0") && !hasres ==> mark(sct) == 1
+//@   call[errors.New#0] assert refuses_only_a_link_that_is_not_a_cid_link [C15]: true
 //@   let hasres := call[Set.Has#0]
 //@   let size := call[util.LdSize#0]
 //@   call[dynamic#0] assert first_visit_only [C15]: !hasres
@@ -144,6 +157,7 @@ package car
 //@   ensures delegates [C02]: result0 == cr && err == oerr
 
 //@ func LoadCar
+//@   requires a_store [C09]: s != nil
 //@   let cr, nerr := call[NewCarReader#0]
 //@   call[NewCarReader#0] assert same_stream [C02]: ref(arg0) == ref(r)
 //@   call[loadCarFast#0] assert same_reader_and_store [C02]: arg0 == ctx && ref(arg2) == ref(cr)
